@@ -63,6 +63,10 @@ type WorkerOut struct {
 	ProfileHist map[string]int    `json:"profile_hist,omitempty"`
 }
 
+// Thorough reports whether the check runs in the thorough tier: worlds then draw
+// larger workloads and the driver allows more steps per run.
+func Thorough() bool { return os.Getenv("VERIF_TIER") == "thorough" }
+
 func envInt(name string, def int64) int64 {
 	v := os.Getenv(name)
 	if v == "" {
@@ -103,6 +107,10 @@ func Main(t *testing.T, worldName string, specs []Spec) {
 	if sp == nil {
 		fmt.Fprintf(os.Stderr, "unknown VERIF_PROP %q for world %s\n", prop, worldName)
 		os.Exit(2)
+	}
+	if Thorough() {
+		sp.Limits.MaxSteps *= 3
+		sp.Limits.SettleSteps *= 2
 	}
 	if w := envInt("VERIF_WATCHDOG_S", 0); w > 0 {
 		watchdog = time.Duration(w) * time.Second
